@@ -59,7 +59,7 @@ def groupsOp : Op := fun j => do
   let exts := extVec s.arr s.nx s.ny s.nz
   let masks := qs.map fun q => encExcept encMask (maskOf s.arr s.nz exts q)
   let fall := qs.map fun q =>
-    encExcept encNats ((maskOf s.arr s.nz exts q).map whereTrue)
+    encExcept encNats ((fallFilterOf s.arr s.nz exts q).map fun rows => rows.map (·.1))
   return Json.mkObj [
     ("ext", encNats exts),
     ("masks", Json.arr masks.toArray),
@@ -122,7 +122,13 @@ def recordOp (α : Type) [Num α] [Wire α] : Op := fun j => do
   let col := record m T σ
   return Json.mkObj [("col", encNums col), ("T", encNums (colT m col)), ("sigma", encNums (colSigma m col))]
 
+/-- `defaultCount`: `int(np.ceil(0.1 * N))` for a list of `N` -/
+def defaultCountOp : Op := fun j => do
+  let ns ← nats j "N"
+  return Json.mkObj [("count", encNats (ns.map defaultCount))]
+
 def topologyOps : List (String × Op) := [
+  ("defaultCount", defaultCountOp),
   ("topology", topologyOp),
   ("groups", groupsOp),
   ("store", storeOp),
